@@ -151,6 +151,9 @@ class Sym:
 
     # ---- comparisons: concolic
     def _c(s, o, op):
+        if isinstance(o, (float, numpy.floating)) and o in (math.inf, -math.inf) and s.val == s.val and abs(s.val) != math.inf:
+            # comparison with a plain infinite constant (best_loss = numpy.inf): decided for every real value
+            return bool(getattr(operator, op)(s.val, float(o)))
         o = lift(o)
         r = bool(getattr(operator, op)(s.val, o.val))
         CTX.pcs.append((op, s, o, r, _site()))
